@@ -547,6 +547,16 @@ theorem step_all (h1 : inactiveSettleShapeOk = true) (h2 : settleShapeOk = true)
       · cases h
       · exact addDeposit_both ha.both h
     · exact ha.both
+  | depositX pid who fx other =>
+    simp only [step, Model.C15.ofExcept]
+    split
+    · rename_i s' h
+      have h := (depositX_ok h).2
+      unfold deposit at h
+      split at h
+      · cases h
+      · exact addDeposit_both ha.both h
+    · exact ha.both
   | cancel pid who =>
     simp only [step, Model.C15.ofExcept]
     split
